@@ -480,7 +480,7 @@ func (u *Unit) load(st *State, fr *Frame, pos token.Pos, p PtrV, t types.Type) V
 }
 
 func (u *Unit) loadNoCheck(st *State, p PtrV, t types.Type) Val {
-	if u.specMode > 0 && !u.noNilMerge && p.Cell != nil && p.Blk == nil && p.ElemIdx == nil && !(p.Nil.IsBool && !p.Nil.B) {
+	if u.specMode > 0 && !u.noNilMerge && p.Cell != nil && p.Blk == nil && p.ElemIdx == nil && !(p.Nil.IsBool && !p.Nil.B) && !u.knownFalse(p.Nil) {
 		// specifications are total: reading through a nil pointer yields the
 		// zero value (so that "fresh(r.f)" holds when r is nil)
 		q := p
@@ -566,4 +566,40 @@ func (u *Unit) restoreFrames(s frameSnap) {
 		}
 		f.regs = m
 	}
+}
+
+type kfEntry struct {
+	res   bool
+	scope int
+}
+
+// knownFalse: t cannot hold on the current path (decided by the solver within
+// the feasibility budget; cached per solver scope).  Used to keep the total
+// semantics of specifications from wrapping every load in "if p == nil".
+func (u *Unit) knownFalse(t *Term) bool {
+	if t.IsBool {
+		return !t.B
+	}
+	if u.binder > 0 || len(t.S) > 200 {
+		return false
+	}
+	if u.kfMemo == nil {
+		u.kfMemo = map[string]kfEntry{}
+	}
+	cur := u.S.ScopeID()
+	if e, ok := u.kfMemo[t.S]; ok {
+		if e.res && u.S.Alive(e.scope) {
+			return true
+		}
+		if !e.res && e.scope == cur {
+			return false
+		}
+	}
+	u.S.Push()
+	u.S.Assert(t)
+	r := u.S.CheckSatT(u.Cfg.FeasMs)
+	u.S.Pop()
+	res := r == "unsat"
+	u.kfMemo[t.S] = kfEntry{res: res, scope: cur}
+	return res
 }
